@@ -653,10 +653,11 @@ pub fn expect_one(args: Vec<Obj>, msg: &str) -> NRes<Obj> {
 pub fn call_type1(ty: &ObjType, arg: Obj) -> NRes<Obj> {
     match ty {
         ObjType::Int => match arg {
-            Obj::Num(n) => Ok(Obj::Num(
-                n.trunc()
-                    .ok_or(NErr::value_error("can't coerce to int".to_string()))?,
-            )),
+            Obj::Num(n) => match n.trunc() {
+                // trunc passes non-finite floats through; int() must return an int or raise
+                Some(t @ NNum::Int(_)) => Ok(Obj::Num(t)),
+                _ => Err(NErr::value_error("can't coerce to int".to_string())),
+            },
             Obj::Seq(Seq::String(s)) => match s.parse::<BigInt>() {
                 Ok(x) => Ok(Obj::from(x)),
                 Err(s) => Err(NErr::value_error(format!("can't parse: {}", s))),
